@@ -192,6 +192,10 @@ Section Main.
     destruct H as (Htf&Hall). exists tree. auto.
   Qed.
 
+  Lemma vertex_oof_of_astar fuel target :
+    run_a_star fuel d source target = OutOfFuel -> run_vertex_oriented fuel d source target = OutOfFuel.
+  Proof. intros H. unfold Search.run_vertex_oriented. rewrite H. reflexivity. Qed.
+
   (* ---- the statements of the property ---- *)
   Corollary vertex_nopath_unreachable fuel t : t < nverts g ->
     run_vertex_oriented fuel d source (Some t) = Err "nopath"%string -> ~ reachable ok d g source t.
